@@ -183,9 +183,34 @@ def mounts_case():
                      st.sampled_from([0, 0, 0, 600, 1100, 1500, 1900, 3000, 9000, 70000]))
 
 
+NETNS_NAMES = [
+    "e0", "br-x", "veth1234567890", "enx001122334455", "enx00112233445", "enx0011223344556"[:15],
+    "a.b", "if_15_chars_abc", "if_15_chars_ab", "x" * 15, "x" * 14, "docker0", "wlp0s20f3",
+]
+
+
+def netns_case():
+    """Interfaces created in a private network namespace (needs CAP_SYS_ADMIN and
+    iproute2; inconclusive otherwise)."""
+    v4 = st.tuples(st.sampled_from(["10.1.2.3", "192.168.77.1", "172.16.0.9", "100.64.3.2"]),
+                   st.sampled_from([8, 16, 24, 25, 30, 32]))
+    v6 = st.tuples(st.sampled_from(["fd00::5", "2001:db8::1:2", "fd12:3456:789a::ffff"]),
+                   st.sampled_from([48, 64, 96, 128]))
+    spec = st.fixed_dictionaries(dict(
+        name=st.sampled_from(NETNS_NAMES),
+        mtu=st.sampled_from([68, 576, 1280, 1400, 1500, 9000, 65535]),
+        up=st.booleans(), promisc=st.booleans(), allmulti=st.booleans(),
+        mac=st.binary(min_size=6, max_size=6),
+        v4=st.lists(v4, max_size=2, unique_by=lambda t: t[0]),
+        v6=st.lists(v6, max_size=2, unique_by=lambda t: t[0]),
+    ))
+    return st.tuples(st.just("netns"), st.lists(spec, min_size=1, max_size=4, unique_by=lambda d: d["name"]))
+
+
 def strategy(tier):
-    return st.one_of(call_case(), call_case(), call_case(), utmp_case(), mounts_case(),
-                     st.tuples(st.just("ifaces")))
+    return st.one_of(call_case(), call_case(), call_case(), call_case(), call_case(), call_case(),
+                     utmp_case(), utmp_case(), mounts_case(), mounts_case(),
+                     st.tuples(st.just("ifaces")), netns_case())
 
 
 # ------------------------------------------------------------------ child side
@@ -509,7 +534,163 @@ def run_child_case(case):
             if have != want:
                 raise Violation("ifaces-inet6", f"{n}: {sorted(have)} kernel {sorted(want)}")
         return Result(["ifaces", "ifaces=%d" % len(names)], "ifaces|" + ",".join(sorted(names)))
+    if kind == "netns":
+        return run_netns(case[1])
     raise HarnessError(f"unknown case kind {kind!r}")
+
+
+def _kernel_if(name):
+    """MTU and flags of an interface as the kernel reports them through the
+    SIOCGIF* ioctls, issued from Python (independent of the C extension)."""
+    import fcntl
+
+    with socket.socket(socket.AF_INET, socket.SOCK_DGRAM) as sk:
+        ifr = struct.pack("16sH22x", name.encode(), 0)
+        flags = struct.unpack("16sH22x", fcntl.ioctl(sk, 0x8913, ifr))[1]      # SIOCGIFFLAGS
+        ifr = struct.pack("16si20x", name.encode(), 0)
+        mtu = struct.unpack("16si20x", fcntl.ioctl(sk, 0x8921, ifr))[1]        # SIOCGIFMTU
+    return flags, mtu
+
+
+def _netns_body(specs):
+    """Runs in a forked grandchild: returns (code, payload); code 0 ok,
+    3 violation (clause, detail), 4 inconclusive (reason)."""
+    import ipaddress
+
+    import psutil
+
+    env = {k_: v_ for k_, v_ in os.environ.items() if k_ not in ("LD_PRELOAD", "ASAN_OPTIONS", "UBSAN_OPTIONS")}
+
+    def ip(*args):
+        return subprocess.run(("ip",) + args, capture_output=True, text=True, env=env, timeout=20)
+
+    try:
+        os.unshare(os.CLONE_NEWNET)
+    except (OSError, AttributeError) as e:
+        return 4, f"unshare(CLONE_NEWNET): {e!r}"
+    try:
+        for sp in specs:
+            mac = bytearray(sp["mac"])
+            mac[0] = (mac[0] & 0xFE) | 0x02
+            macs = ":".join("%02x" % b_ for b_ in mac)
+            cmds = [("link", "add", sp["name"], "type", "bridge"),
+                    ("link", "set", sp["name"], "address", macs),
+                    ("link", "set", sp["name"], "mtu", str(sp["mtu"]))]
+            if sp["promisc"]:
+                cmds.append(("link", "set", sp["name"], "promisc", "on"))
+            if sp["allmulti"]:
+                cmds.append(("link", "set", sp["name"], "allmulticast", "on"))
+            for a_, l_ in sp["v4"]:
+                cmds.append(("addr", "add", f"{a_}/{l_}", "dev", sp["name"]))
+            for a_, l_ in sp["v6"]:
+                cmds.append(("addr", "add", f"{a_}/{l_}", "dev", sp["name"], "nodad"))
+            if sp["up"]:
+                cmds.append(("link", "set", sp["name"], "up"))
+            for c_ in cmds:
+                r = ip(*c_)
+                if r.returncode != 0:
+                    return 4, f"ip {' '.join(c_)}: {r.stderr.strip()[:120]}"
+    except (OSError, subprocess.SubprocessError) as e:
+        return 4, f"iproute2: {e!r}"
+
+    def truth():
+        r = ip("-j", "addr", "show")
+        if r.returncode != 0:
+            raise OSError(r.stderr)
+        out = {}
+        for d in json.loads(r.stdout):
+            addrs = set()
+            for ai in d.get("addr_info", []):
+                fam = socket.AF_INET if ai["family"] == "inet" else socket.AF_INET6
+                net = ipaddress.ip_network("%s/%d" % (ai["local"], ai["prefixlen"]), strict=False)
+                addrs.add((int(fam), ai["local"], str(net.netmask)))
+            out[d["ifname"]] = dict(mac=d.get("address"), addrs=addrs)
+        return out
+
+    for attempt in (0, 1):
+        try:
+            before = truth()
+            stats = psutil.net_if_stats()
+            addrs = psutil.net_if_addrs()
+            after = truth()
+        except OSError as e:
+            return 4, f"ip -j addr show: {e!r}"
+        if before == after:
+            break
+    else:
+        return 4, "interface table kept changing"
+    names = set(after)
+    if set(stats) != names:
+        return 3, ("ifaces-names", f"net_if_stats() lists {sorted(stats)}, kernel {sorted(names)}")
+    if not set(addrs) <= names or not all(n in addrs for n in names if after[n]["mac"]):
+        return 3, ("ifaces-names", f"net_if_addrs() lists {sorted(addrs)}, kernel {sorted(names)}")
+    for n in sorted(names):
+        flags, mtu = _kernel_if(n)
+        st_ = stats[n]
+        fl = set(st_.flags.split(",")) if st_.flags else set()
+        if st_.mtu != mtu:
+            return 3, ("ifaces-mtu", f"{n}: net_if_stats() mtu {st_.mtu}, SIOCGIFMTU {mtu}")
+        want = {"up": 0x1, "broadcast": 0x2, "loopback": 0x8, "running": 0x40, "noarp": 0x80,
+                "promisc": 0x100, "allmulti": 0x200, "multicast": 0x1000}
+        for word, bit in want.items():
+            if (word in fl) != bool(flags & bit):
+                return 3, ("ifaces-flags", f"{n}: net_if_stats() flags {st_.flags!r}, SIOCGIFFLAGS {flags:#x} "
+                                           f"(bit {word})")
+        if st_.isup != bool(flags & 0x40 and flags & 0x1):
+            return 3, ("ifaces-flags", f"{n}: isup={st_.isup}, SIOCGIFFLAGS {flags:#x}")
+        got = {(int(a_.family), a_.address.split("%")[0], a_.netmask) for a_ in addrs.get(n, [])
+               if a_.family in (socket.AF_INET, socket.AF_INET6)}
+        if got != after[n]["addrs"]:
+            return 3, ("ifaces-inet", f"{n}: net_if_addrs() {sorted(got)}, kernel {sorted(after[n]['addrs'])}")
+        link = [a_.address for a_ in addrs.get(n, []) if a_.family == psutil.AF_LINK]
+        if after[n]["mac"] and link != [after[n]["mac"]]:
+            return 3, ("ifaces-mac", f"{n}: {link} kernel {after[n]['mac']}")
+    return 0, sorted(names)
+
+
+def run_netns(specs):
+    r, w = os.pipe()
+    pid = os.fork()
+    if pid == 0:
+        code, payload = 5, "crashed"
+        try:
+            os.close(r)
+            try:
+                code, payload = _netns_body(specs)
+            except BaseException as e:  # noqa: BLE001
+                import traceback
+                code, payload = 5, traceback.format_exc()[-1500:]
+            os.write(w, json.dumps([code, payload]).encode())
+        finally:
+            os._exit(0)
+    os.close(w)
+    data = b""
+    while True:
+        chunk = os.read(r, 65536)
+        if not chunk:
+            break
+        data += chunk
+    os.close(r)
+    _, status = os.waitpid(pid, 0)
+    if not data:
+        raise Violation("sanitizer-abort", f"netns worker died (status {status}) for {specs}")
+    code, payload = json.loads(data.decode())
+    if code == 3:
+        raise Violation(payload[0], payload[1] + f" (interfaces {[sp['name'] for sp in specs]})")
+    if code == 4:
+        return Result(["netns-inconclusive"], None)
+    if code != 0:
+        raise HarnessError("netns worker: " + str(payload))
+    lens = sorted({min(len(sp["name"]), 15) for sp in specs})
+    labels = ["netns", "netns-ifaces=%d" % len(specs)]
+    if 15 in lens:
+        labels.append("netns-15-char-name")
+    names = [sp["name"] for sp in specs]
+    if any(a_ != b_ and a_.startswith(b_) for a_ in names for b_ in names):
+        labels.append("netns-prefix-sibling")
+    return Result(labels, "netns|" + ",".join(sorted(names)) + "|" + ",".join(
+        "%s%s%s" % ("U" if sp["up"] else "d", "P" if sp["promisc"] else "", "M" if sp["allmulti"] else "")
+        for sp in specs))
 
 
 # ------------------------------------------------------------------ parent side
